@@ -175,6 +175,13 @@ def bodies(tag, marker):
     out.append({"__class__": tag})
     out.append({"__class__": tag, "__exception__": True, "args": (), "attributes": {}})
     out.append({"__class__": tag, "state": ("PYRO:obj@localhost:1", set(), set(), set(), 0.0, "serpent", 0)})
+    # members that are themselves class-tagged Proxy dicts: a decoder that revives bottom-up (msgpack's object_hook) turns them into LIVE proxies before the
+    # enclosing dict is rebuilt - unpacking / iterating / measuring such a member would call its remote object, i.e. open a socket to the address in the payload
+    live = {"__class__": "Pyro5.client.Proxy", "state": ["PYRO:obj@127.0.0.1:1", [], [], [], None, None]}
+    out.append({"__class__": tag, "__exception__": True, "args": live})
+    out.append({"__class__": tag, "__exception__": True, "args": [], "attributes": live})
+    out.append({"__class__": tag, "state": live})
+    out.append({"__class__": tag, "state": ["PYRO:obj@127.0.0.1:1", live, [], live, None, None]})
     return out
 
 
@@ -301,6 +308,15 @@ def main(mode):
         got = serializers.serializers["marshal"].loads(crafted)
         if any(type(x).__name__ == "code" for x in got):
             KNOWN.append("C04-marshal-decodes-code-objects")
+    except Exception:      # noqa
+        pass
+    # listed known finding: msgpack decodes its reserved extension code -1 itself (before ext_hook is asked) into a msgpack.ext.Timestamp instance
+    try:
+        import msgpack as _msgpack
+        runs += 1
+        got = serializers.serializers["msgpack"].loads(_msgpack.packb([_msgpack.Timestamp(1, 2)]))
+        if type(got[0]).__name__ == "Timestamp":
+            KNOWN.append("C04-msgpack-timestamp-extension")
     except Exception:      # noqa
         pass
     for t in REG_TAGS:
